@@ -35,13 +35,19 @@ def _work(job):
                  "error": traceback.format_exc()}]
 
 
-def run_jobs(jobs):
-    """Run harness jobs in worker processes (fresh interpreter state per process)."""
+def run_jobs(jobs, timeout=3000):
+    """Run harness jobs in worker processes (fresh interpreter state per process).  A hard limit
+    on the whole batch: a hung worker must not hang the check."""
     if not jobs:
         return []
     ctx = mp.get_context("fork")
     with ctx.Pool(min(NCPU, len(jobs)), initializer=_init_worker) as pool:
-        res = pool.map(_work, jobs, chunksize=1)
+        try:
+            res = pool.map_async(_work, jobs, chunksize=1).get(timeout=timeout)
+        except mp.TimeoutError:
+            pool.terminate()
+            return [{"id": "harness-timeout", "lines": [], "fails": [],
+                     "error": f"harness jobs did not finish within {timeout}s"}]
     out = []
     for r in res:
         out.extend(r)
